@@ -13,28 +13,28 @@ const symIntText = "<symint>"
 func init() {
 	maps.Copy(externals, map[string]externalFn{
 		"strconv.FormatInt": func(fr *frame, args []value) value {
-			if isSym(args[0]) {
+			if isSym(args[0]) && !fr.i.ps.exactItoa {
 				fr.i.ps.res.Assumes["decimal rendering of symbolic integers is opaque (placeholder text)"] = true
 				return symIntText
 			}
 			return execBody(fr, args)
 		},
 		"strconv.FormatUint": func(fr *frame, args []value) value {
-			if isSym(args[0]) {
+			if isSym(args[0]) && !fr.i.ps.exactItoa {
 				fr.i.ps.res.Assumes["decimal rendering of symbolic integers is opaque (placeholder text)"] = true
 				return symIntText
 			}
 			return execBody(fr, args)
 		},
 		"strconv.Itoa": func(fr *frame, args []value) value {
-			if isSym(args[0]) {
+			if isSym(args[0]) && !fr.i.ps.exactItoa {
 				fr.i.ps.res.Assumes["decimal rendering of symbolic integers is opaque (placeholder text)"] = true
 				return symIntText
 			}
 			return execBody(fr, args)
 		},
 		"strconv.AppendInt": func(fr *frame, args []value) value {
-			if isSym(args[1]) {
+			if isSym(args[1]) && !fr.i.ps.exactItoa {
 				fr.i.ps.res.Assumes["decimal rendering of symbolic integers is opaque (placeholder text)"] = true
 				return fr.appendValues(args[0].([]value), strBytes(symIntText))
 			}
@@ -49,7 +49,7 @@ func extBigText(fr *frame, args []value) value {
 	p, ok := args[0].(*value)
 	if ok && p != nil {
 		neg, limbs := bigParts(args[0])
-		if isSym(neg) || anySym(limbs...) {
+		if (isSym(neg) || anySym(limbs...)) && !fr.i.ps.exactItoa {
 			fr.i.ps.res.Assumes["decimal rendering of symbolic integers is opaque (placeholder text)"] = true
 			return symIntText
 		}
